@@ -271,7 +271,7 @@ def r2_getinfo(rep, ctx):
             else:
                 problems.append("returns %s, whose origin is not recognised" % show(a, 80))
         rep.check(not problems, "C05.R2", key, "returned info is selected under a unit fact and a quantity-type fact", "GetInfo " + "; ".join(problems), node=node, fn=fn)
-    rep.floor("C05.R2", "value returns of GetInfo", n, 4)
+    rep.floor("C05.R2", "value returns of GetInfo", n, 2)
     # the final fall-through raises InvalidUnitError / InvalidQuantityTypeError
     falls = [x for (x, lab) in cfg.pred[cfg.EXIT] if cfg.kind[x] != "return"]
     rep.check(not falls, "C05.R2", "GetInfo:no-fallthrough", "GetInfo never falls off its end (it returns an info or raises)", "GetInfo can fall off its end and return None", fn=fn)
@@ -366,7 +366,7 @@ def r3_check_category_unit(rep, ctx):
             deciders.append((g, bound[P_CAT], bound[P_UNIT]))
             for x in grets:
                 sites.append((x, x.value.value, g))
-    rep.floor("C05.R3", "verdict sites", len(sites), 2)
+    rep.floor("C05.R3", "verdict sites", len(sites), 1)
     for sfn, pcat, punit in deciders:
         scfg = CFG(sfn.node)
         sres = Resolver(m, sfn)
@@ -439,7 +439,7 @@ def r4_convert_with_exp(rep, ctx):
     for k, nid in guards.items():
         rep.check(cfg.must_raise_from([(nid, "T")]), "C05.R4", "_ConvertWithExp:%s:must-raise" % k, "the %s mismatch must-raise" % k, "the %s mismatch does not always raise" % k, node=cfg.ast[nid], fn=fn)
     convs = [c for c in own_nodes(fn.node) if isinstance(c, ast.Call) and isinstance(c.func, ast.Attribute) and c.func.attr == "Convert"]
-    rep.floor("C05.R4", "conversions in _ConvertWithExp", len(convs), 2)
+    rep.floor("C05.R4", "conversions in _ConvertWithExp", len(convs), 1)
     for c in convs:
         dom = cfg.dominating_edges(cfg.node_of(c))
         ok = all((nid, "F") in dom for nid in guards.values())
@@ -509,7 +509,7 @@ def r7_change_nothing(rep, ctx):
         n += 1
         ws = sorted({(w[0], w[1]) for w in eff.trans_w.get(fn.qual, ()) if c15.is_registry_atom(w)})
         rep.check(not ws, "C05.R7", "pure:%s.%s" % (cls, name), "no transitive write to registry state", "%s.%s reaches a write of registry state %s: a failing operation can leave the database changed" % (cls, name, ws), fn=fn)
-    rep.floor("C05.R7", "entry points examined", n, 20)
+    rep.floor("C05.R7", "entry points examined", n, 12)
     # ObtainQuantity / Quantity construction write only the intern table, and only after the constructor returned
     oq = m.func("ObtainQuantity")
     ws = sorted({(w[0], w[1]) for w in eff.trans_w.get(oq.qual, ()) if c15.is_registry_atom(w)})
